@@ -53,6 +53,8 @@ def main(argv):
         pid = os.fork()
         if pid == 0:
             try:
+                import signal
+                signal.alarm(int(os.environ.get('SYMX_CONC_TASK_S', '120')))   # a concrete run must end
                 res = run_task(task)
             except BaseException as e:
                 res = {'id': task['id'], 'status': 'error',
